@@ -91,8 +91,16 @@ def rand_scenario(rng, lvl, n):
             steps.append({"k": "metrics"})
         else:
             steps.append({"k": "list"})
-    return {"sc": "rand-%s-%d" % (lvl, n), "lvl": lvl, "U": U, "minl": minl, "maxl": maxl, "steps": steps,
-            "amap": rand_amap(rng, lvl, U)}
+    sc = {"sc": "rand-%s-%d" % (lvl, n), "lvl": lvl, "U": U, "minl": minl, "maxl": maxl, "steps": steps,
+          "amap": rand_amap(rng, lvl, U)}
+    if lvl == "pkt" and rng.random() < 0.3:
+        # a policy that sets the lease-time option itself (below the minimum, above the maximum, in between, or unset):
+        # whatever it says, the reply must carry the length of the lease that was recorded, within the bounds
+        sc["plt"] = rng.choice(["60", "2d", "1h", "null", "100000", "1"])
+        for st in steps:
+            if st["k"] == "msg" and rng.random() < 0.7:
+                st["plist"] = rng.choice([[1, 3, 6, 15, 51, 54], [51]])
+    return sc
 
 
 def fill_scenario(rng, lvl, n):
